@@ -10,6 +10,7 @@ type StackN<const N: usize, const S: usize> = any_vec::mem::StackN<N, S>;
 
 #[cfg(feature = "lib_alloc")]
 anyvec_pbt::configs! {
+    Pl3_StackBig: Pl3, Stack<420>, dyn Cloneable, G_BACKEND | G_STACK;
     Pl8a2_Multi:  Pl8a2,  Multi, dyn Cloneable, G_LAYOUT;
     Cc8_Multi:    Cc8,    Multi, dyn Cloneable, G_LAYOUT;
     Tr64_GuardA:   Tr64,   GuardB,          dyn Cloneable, G_ALIGN;
@@ -26,6 +27,7 @@ anyvec_pbt::configs! {
 
 #[cfg(not(feature = "lib_alloc"))]
 anyvec_pbt::configs! {
+    Pl3_StackBig: Pl3, Stack<420>, dyn Cloneable, G_BACKEND | G_STACK;
     Tr64_GuardA:   Tr64,   GuardB,          dyn Cloneable, G_ALIGN;
     Tr160_StackA:  Tr160,  Stack<320>,      dyn Cloneable, G_ALIGN;
     Pl3_Stack:    Pl3,    Stack<17>,      dyn Cloneable, G_BACKEND | G_STACK;
